@@ -28,6 +28,18 @@ type rpRecorder struct {
 	trace  []Sx
 	req    *http.Request
 	ctxPtr string
+	thread *concThread // set for requests driven by the controlled scheduler
+}
+
+type rpKey struct{}
+
+// rpRec returns the recorder of the request a handler is running for: carried in the request context when requests
+// run concurrently, the global one otherwise
+func rpRec(c *rux.Context) *rpRecorder {
+	if v := c.Req.Context().Value(rpKey{}); v != nil {
+		return v.(*rpRecorder)
+	}
+	return rpCur
 }
 
 // rpLastReuse: how many requests of the last executed case were served with a *Context already used by an
@@ -82,11 +94,11 @@ func rpSnap(c *rux.Context) Sx {
 		ps = append(ps, L(S(k), S(c.Params[k])))
 	}
 	_, isWrap := c.Resp.(*wrapW)
-	return L(A("snap"), LS(data), LS(ps), I(len(c.Errors)), I(c.StatusCode()), I(c.Length()), B(!isWrap), B(c.Req == rpCur.req))
+	return L(A("snap"), LS(data), LS(ps), I(len(c.Errors)), I(c.StatusCode()), I(c.Length()), B(!isWrap), B(c.Req == rpRec(c).req))
 }
 
 func rpRunOp(c *rux.Context, op Sx) {
-	rec := rpCur
+	rec := rpRec(c)
 	switch op.Head() {
 	case "ev":
 		rec.trace = append(rec.trace, L(A("e"), op.List[1]))
@@ -120,6 +132,21 @@ func rpRunOp(c *rux.Context, op Sx) {
 		c.WithReqCtxValue("k", 1)
 	case "snap":
 		rec.trace = append(rec.trace, rpSnap(c))
+	case "yield":
+		if rec.thread != nil {
+			rec.thread.park()
+		}
+	case "params":
+		var keys []string
+		for k := range c.Params {
+			keys = append(keys, k)
+		}
+		sort.Strings(keys)
+		var ps []Sx
+		for _, k := range keys {
+			ps = append(ps, L(S(k), S(c.Params[k])))
+		}
+		rec.trace = append(rec.trace, L(A("params"), LS(ps)))
 	default:
 		panic("rp: bad op " + op.String())
 	}
@@ -127,8 +154,8 @@ func rpRunOp(c *rux.Context, op Sx) {
 
 func rpHandler(ops []Sx) rux.HandlerFunc {
 	return func(c *rux.Context) {
-		if rpCur.ctxPtr == "" {
-			rpCur.ctxPtr = fmt.Sprintf("%p", c)
+		if rec := rpRec(c); rec.ctxPtr == "" {
+			rec.ctxPtr = fmt.Sprintf("%p", c)
 		}
 		for _, op := range ops {
 			rpRunOp(c, op)
@@ -211,6 +238,8 @@ func rpExec(c Sx) (out Sx) {
 				opts = append(opts, rux.HandleMethodNotAllowed)
 			case "strict":
 				opts = append(opts, rux.StrictLastSlash)
+			case "cache":
+				opts = append(opts, rux.CachingWithNum(uint16(o.List[1].Int())))
 			case "onpanic":
 				onPanic, hasPanic = o.List[1].Lst(), true
 			case "onerror":
